@@ -16,7 +16,7 @@ def k2_build(ctx):
     exp = ctx.stage('expander', lambda: stages.expander_build(ctx.dir))
     if not exp['ok']:
         return {'ok': False, 'why': 'expander does not build against /repo', 'log': exp['log']}
-    skels = stages.expand(exp['bins'][False], [smgen.dsl_defn(d) for d in defs])
+    skels = stages.expand(exp['bins'][False], [smgen.dsl_defn(d, vary=True) for d in defs])
     rejected = [i for i, s in enumerate(skels) if not s.get('ok') or 'items' not in s]
     live = [i for i in range(len(defs)) if i not in rejected]
     crate = os.path.join(ctx.dir, 'k2crate')
